@@ -1,9 +1,10 @@
 (* Dv/Extract.v — extraction of the executable model and the spec oracle for the correspondence runner.
    ExtrOcamlBasic only: bool, option, unit, list, prod, sumbool, sumor -> OCaml natives; N/positive/nat stay Coq datatypes. *)
 From Coq Require Import Extraction ExtrOcamlBasic.
-From Dv Require Import Model Spec.
+From Dv Require Import Model Spec ProtoModel.
 Extraction Language OCaml.
 Extraction "dv_model.ml"
+  pstep pinit ptrace pget victims
   step run init_router getr advert rib_entries rib_update rib_dead
   topo_of settled all_pairs distb maxdist table_ok adv_ok converged fixedb is_round is_growth alive nb
   INF N.add N.mul N.of_nat N.to_nat N.eqb N.ltb N.leb N.div N.modulo N.compare.
